@@ -81,13 +81,15 @@ class Stream(Part):
 
     def strategy(self, tier):
         return st.builds(
-            lambda items, a, b, nc, term, lw, rec, env: {"items": items, "systems": [a, b], "no_color": nc if env is None else env[1], "no_color_arg": None if env is None else env[0], "env_no_color": False if env is None else env[2],
-                                                        "terminal": term, "legacy": lw, "record": rec},
+            lambda items, a, b, nc, term, lw, rec, env, pg: {"items": items, "systems": [a, b], "no_color": nc if env is None else env[1], "no_color_arg": None if env is None else env[0], "env_no_color": False if env is None else env[2],
+                                                            "terminal": term, "legacy": lw, "record": rec, "pager": pg},
             st.lists(item(), min_size=1, max_size=5),
             st.sampled_from(SYSTEMS), st.sampled_from(SYSTEMS),
             st.sampled_from([False, False, False, True]), st.sampled_from([True, True, False, [1, 0], [0, 1], [1, 1], [0, 0]]), st.sampled_from([False, False, False, True]), st.sampled_from([False, False, True]),
             # (no_color argument, effective setting, NO_COLOR in the environment): an explicit argument wins over the environment, None means "look at the environment"
             st.sampled_from([None, None, None, [None, True, True], [None, False, False], [False, False, True], [True, True, False], [False, False, False], [True, True, True]]),
+            # everything is written inside "with console.pager(pager, styles=, links=)": the stream is what the pager is shown, nothing reaches the file
+            st.sampled_from([None, None, None, None, None, {"styles": True, "links": True}, {"styles": True, "links": False}, {"styles": False, "links": False}]),
         )
 
     def check(self, spec, ctx):
@@ -140,6 +142,16 @@ class Stream(Part):
             expected = []  # ("ch", c, attrs, fg, bg, link) | ("ctl", text)
             term_now = terms[0]
             switch_at = (len(spec["items"]) + 1) // 2 if len(files) == 2 else None
+            pg = spec.get("pager") if isinstance(mode, bool) else None
+            shown = []
+            if pg:
+                class ShowsNothing:
+                    def show(self, content):
+                        shown.append(content)
+
+                pager_cm = sut(con.pager, ShowsNothing(), styles=pg["styles"], links=pg["links"])
+                sut(pager_cm.__enter__)
+                ctx.cls("through-pager-styles-%s-links-%s%s" % (pg["styles"], pg["links"], "-recording" if spec.get("record") else ""))
             for idx, (it, segs) in enumerate(zip(spec["items"], built)):
                 if idx == switch_at:
                     con.file = files[1]
@@ -221,7 +233,7 @@ class Stream(Part):
                     if route == "print_style" and t0 == "":
                         styled = [("", None)]
                 for t, sp in styled:
-                    if system is None or sp is None:
+                    if system is None or sp is None or (pg and not pg["styles"]):
                         st_ = (frozenset(), SGR.DEFAULT, SGR.DEFAULT, None)
                     else:
                         attrs = frozenset(k for k, v in sp["attrs"].items() if v)
@@ -232,11 +244,20 @@ class Stream(Part):
                                 fg = self.canon(Color.parse(sp["color"]).downgrade(cs))
                             if sp["bgcolor"]:
                                 bg = self.canon(Color.parse(sp["bgcolor"]).downgrade(cs))
-                        link = sp["link"] if not spec["legacy"] else None
+                        link = sp["link"] if not spec["legacy"] and not (pg and not pg["links"]) else None
                         st_ = (attrs, fg, bg, link)
                     for c in t:
                         expected.append(("ch", c) + st_)
             out = "".join(x.getvalue() for x in files)
+            if pg:
+                sut(pager_cm.__exit__, None, None, None)
+                if out or files[0].getvalue():
+                    ctx.violation("characters", "C03/pager/reached-file", "text written inside console.pager() reached the file: %r" % out[:100])
+                    return
+                if len(shown) != 1:
+                    ctx.violation("characters", "C03/pager/shown", "the pager was shown %d contents" % len(shown))
+                    return
+                out = shown[0]
             for x, is_term in zip(files, terms):
                 if not is_term:
                     try:
